@@ -20,7 +20,7 @@ struct C04
       { if( got != static_cast<i64>(n) * 65536 ) lv.hit(c_in, order, [=]{ return ex1(s, FIN[how], TN[t], {{"n",to_s128(n)}}, to_s(static_cast<i64>(n)*65536), to_s(got), "from", {to_s(how), to_s(t), to_su(bits)}); }); }
     else if( !fx_isnan(got) ) lv.hit(c_nan, order, [=]{ return ex1(s, FIN[how], TN[t], {{"n",to_s128(n)}}, "NaN", to_s(got), "from", {to_s(how), to_s(t), to_su(bits)}); });
     }
-  // implicit promotion in mixed + / - with the other operand 0: the result is the promoted value itself
+  // implicit promotion in mixed + / - with the other operand 0 (and n / 1): the result is the promoted value itself
   template<typename V> void promo(Shim* s, int form, int t, u64 bits, u64 order, V& lv)
     {
     i128 n = int_value(t, bits);
@@ -31,10 +31,24 @@ struct C04
       case 1: got = static_cast<i64>(s->fm_mixed(M_ADD, t, O_T_FIX, 0, bits)); what = "n + fixed_t(0)"; break;
       case 2: got = static_cast<i64>(s->fm_mixed(M_ADD, t, O_ASSIGN, 0, bits)); what = "x = 0; x += n"; break;
       case 3: got = static_cast<i64>(s->fm_mixed(M_SUB, t, O_T_FIX, 0, bits)); what = "n - fixed_t(0)"; break;
+      case 5: got = static_cast<i64>(s->fm_mixed(M_DIV, t, O_T_FIX, 65536, bits)); what = "n / fixed_t(1)"; break;   // integral dividend: promoted (only fixed*n, n*fixed, fixed/n use the integer itself)
       default: got = static_cast<i64>(s->fm_mixed(M_SUB, t, O_FIX_T, 0, bits)); what = "fixed_t(0) - n"; sign = -1; break;
       }
     bool ok = in_range(n) ? got == static_cast<i64>(sign * n * 65536) : fx_isnan(got);
     if( !ok ) lv.hit(c_promo, order, [=]{ return ex1(s, what, TN[t], {{"n",to_s128(n)}}, in_range(n) ? to_s128(sign*n*65536) : "NaN", to_s(got), "promo", {to_s(form), to_s(t), to_su(bits)}); });
+    }
+  // the same clause for a result obtained elsewhere (constant evaluation); false when (op, order, a) is not one of the promotion forms
+  template<typename V> bool promo_value(Shim* s, int op, int t, int ord, i64 a, u64 bits, i64 got, u64 order, V& lv)
+    {
+    i128 n = int_value(t, bits); i128 sign = 1; const char* what;
+    if( op == M_ADD && a == 0 ) what = ord == O_FIX_T ? "fixed_t(0) + n" : ord == O_T_FIX ? "n + fixed_t(0)" : "x = 0; x += n";
+    else if( op == M_SUB && a == 0 && ord == O_T_FIX ) what = "n - fixed_t(0)";
+    else if( op == M_SUB && a == 0 ) { what = ord == O_FIX_T ? "fixed_t(0) - n" : "x = 0; x -= n"; sign = -1; }
+    else if( op == M_DIV && a == 65536 && ord == O_T_FIX ) what = "n / fixed_t(1)";
+    else return false;
+    bool ok = in_range(n) ? got == static_cast<i64>(sign * n * 65536) : fx_isnan(got);
+    if( !ok ) lv.hit(c_promo, order, [=]{ return ex1(s, what, TN[t], {{"n",to_s128(n)}}, in_range(n) ? to_s128(sign*n*65536) : "NaN", to_s(got), "promo", {}); });
+    return true;
     }
   static u64 to_int_model(int t, i64 x)
     {
@@ -139,11 +153,11 @@ void explore04(Options const& o, std::vector<Shim*> const& shims, std::vector<Sh
         LocalViol lv(rec);
         for( size_t i = blk * B; i < std::min(vals.size(), (blk + 1) * B); ++i )
           {
-          for( int form = 0; form < 5; ++form ) c.promo(s, form, t, vals[i], ob | (static_cast<u64>(t) << 52) | (9ull << 48) | (i * 8 + static_cast<u64>(form)), lv);
+          for( int form = 0; form < 6; ++form ) c.promo(s, form, t, vals[i], ob | (static_cast<u64>(t) << 52) | (9ull << 48) | (i * 8 + static_cast<u64>(form)), lv);
           c.round_trip(s, t, vals[i], ob | (static_cast<u64>(t) << 52) | (10ull << 48) | i, lv);
           }
         });
-      rec.add_states(vals.size() * 6, vals.size() * 7, vals.size() * 6);
+      rec.add_states(vals.size() * 7, vals.size() * 8, vals.size() * 7);
       }
       // fixed -> T
       for( int how = 0; how < TI_COUNT; ++how )
@@ -474,6 +488,24 @@ void replay05(Options const& o, Shim* s, Recorder& rec)
     if( r1 != e1 || r2 != e2 ) rec.viol(rec.cls("C05.fixed_to_fp.second_conversion_of_modified_object_wrong"), 0, [&]{ return ex1(s, "two conversions in one function", "", {{"a",to_s(a)},{"b",to_s(b)}}, hex(e1) + ", " + hex(e2), hex(r1) + ", " + hex(r2), o.rcase, o.rin); }); }
   rec.add_states(1,1,1);
   }
+bool judge04(Shim* s, Recorder& rec, std::string const& kind, std::vector<u64> const& a, u64 value, u64 idx)
+  {
+  C04 c(rec); DirectViol d{rec};
+  if( kind == "from_int" && a.size() == 3 ) { c.from_int(s, static_cast<int>(a[0]), static_cast<int>(a[1]), a[2], static_cast<i64>(value), idx, d); return true; }
+  if( kind == "to_int" && a.size() == 3 ) { i64 x = static_cast<i64>(a[2]); if( fx_finite(x) ) c.to_int(s, static_cast<int>(a[0]), static_cast<int>(a[1]), x, value, idx, d); return true; }
+  if( kind == "mixed" && a.size() == 5 && is_int_type(static_cast<int>(a[1])) )
+    return c.promo_value(s, static_cast<int>(a[0]), static_cast<int>(a[1]), static_cast<int>(a[2]), static_cast<i64>(a[3]), a[4], static_cast<i64>(value), idx, d);
+  return false;
+  }
+bool judge05(Shim* s, Recorder& rec, std::string const& kind, std::vector<u64> const& a, u64 value, u64 idx)
+  {
+  C05 c(rec); DirectViol d{rec};
+  if( kind == "from_fp" && a.size() == 3 ) { c.from_fp(s, static_cast<int>(a[0]), static_cast<int>(a[1]), a[2], static_cast<i64>(value), idx, d); return true; }
+  if( kind == "to_fp" && a.size() == 3 ) { c.to_fp(s, static_cast<int>(a[0]), static_cast<int>(a[1]), static_cast<i64>(a[2]), a[1] == T_F32 ? (value & 0xffffffffull) : value, idx, d); return true; }
+  return false;
+  }
 }
 REGISTER_PROPERTY(C04, explore04, replay04)
+REGISTER_JUDGE(C04, judge04)
+REGISTER_JUDGE(C05, judge05)
 REGISTER_PROPERTY(C05, explore05, replay05)
